@@ -29,10 +29,18 @@ UNIT = {
             'rules': ['str-pred-char', 'str-pred-dot-slash', 'drop-log', 'string-slice-from', ('trim-start-seps', {'optional': True}), 'lossy-string', 'pathbuf-from-abs', 'join-string', 'self-assign', 'c31-mut-param'],
             'proof': [
                 (r"let home_dir = match dirs::home_dir\(\) \{", 'before', "proof { lemma_one_ascii_prefix(path@); }"),
-                (r'path = self\s*\.workspace\s*\.join\(&path\.as_str\(\)\[2\.\.\]\)', 'before', "proof { lemma_two_ascii_prefix(path@); }"),
+                (r'path = self\s*\.workspace\s*\.join\(&path\.as_str\(\)\[\d\.\.\]\)', 'before', "proof { lemma_two_ascii_prefix(path@); }"),
             ],
         },
     },
+    'mutants': [
+        {'name': 'tilde-slices-two-bytes', 'item': 'pre_process_path::expand',
+         'pattern': r"let rest = path\[1\.\.\]\.trim_start_matches\(\['/', '\\\\'\]\);", 'repl': 'let rest = &path[2..];',
+         'expect': r'precondition-not-satisfied'},
+        {'name': 'dot-slash-slices-three-bytes', 'item': 'pre_process_path::expand',
+         'pattern': r'\.join\(&path\[2\.\.\]\)', 'repl': '.join(&path[3..])',
+         'expect': r'precondition-not-satisfied'},
+    ],
     'allow': [r'external_body', r'assume_specification<I: core::slice::SliceIndex<str>>'],
     'min_obligations': 2,
     'trusted': ['std::path::PathBuf, dirs::home_dir: opaque shims', 'str::starts_with std contracts', '<str as Index>::index forwarding'],
